@@ -55,3 +55,8 @@ func init() {
 	props["C20"] = &propInfo{engine: "B", level: "exploration", minOutcomes: 1, mustOutcomes: []string{"ran"},
 		assume: []string{"the packed binary is started in-process through RunPackedBinary with the osArgs/osExit/osStderr/handleError package seams (the ones the repository's pack tests use); the interpreter binary is represented by filler bytes"}}
 }
+
+func init() {
+	props["C07"] = &propInfo{engine: "B", level: "exploration", minOutcomes: 2, mustOutcomes: []string{"tree", "error"},
+		assume: []string{"a goroutine blocked on an abandoned channel is stable, so the goroutine dump after the call is not a timing oracle", "the position of an 'unexpected end' error on empty input is left open"}}
+}
